@@ -20,7 +20,7 @@ func init() {
 		Rule: "one run = one seeded history of up to 40 cache operations (Add/Update/Get/Push/Pop/Reset/Last/ReservedSize/Keys/Levels) over 1..5 keys, value lengths from {0,1,limit-1,limit,limit+1,255,256,65535,65536,65536+k,<=70000}, limits 0..65535, capacity {unlimited,tight,generous}, " +
 			"checked operation by operation against a reference cache and for failure atomicity; in one sub-batch the cache is serialised and restored into a fresh object between operations (restart); " +
 			"non-trivial = at least one rejected operation and one Pop/Reset releasing bytes; distinct = distinct sequences of (operation, outcome, levels, used size)",
-		Runs:       map[string]int{"quick": 30000, "thorough": 3000000},
+		Runs:       map[string]int{"quick": 30000, "thorough": 5000000},
 		MaxSeconds: map[string]int{"quick": 40, "thorough": 900},
 		Run:        runC09,
 		Assumptions: []string{
